@@ -142,21 +142,26 @@ def rule_eval(ctx, rep):
     for r, (px, py), inner in itertools.product((0, 1, 2), [(0, 1), (1, 1), (1, 0)], (True, False)):
         # ---- eval_tokens
         x, y = mk_token(model, base, 'x', px, inner), mk_token(model, base, 'y', py, True)
-        x.attrs['children'] = [mk_token(model, base, 'y', 1, True)]      # x already holds a nested candidate: it goes where x goes
+        # x already holds a nested candidate when it competes (it goes where x goes); when y is offered to x as a
+        # child, x is empty, so that what the offer does is visible in x.children: y is there iff x parses its content
+        kid = mk_token(model, base, 'y', 1, True)
+        x.attrs['children'] = [] if r == CONTAIN else [kid]
         buf = []
         it = Interp(model)
         it.reset_run(Oracle())
-        nested = []
         it.func_hooks[rel.qualname] = lambda interp, fi, args, kwargs, r=r: r
-        it.func_hooks[ac.qualname] = lambda interp, fi, args, kwargs: nested.append((args[0], args[1])) or None
         ret = it.call(et, [x, y, buf], {})
+        kids = x.attrs.get('children')
+        untouched = isinstance(kids, list) and len(kids) == 1 and kids[0] is kid
         if r == PRECEDE:
-            want = ('emit x, continue with y', buf == [x] and ret is y and not nested)
+            want = ('emit x, continue with y', buf == [x] and ret is y and untouched)
         elif r == CONTAIN:
-            want = ('offer y to x as child, continue with x', buf == [] and ret is x and nested == [(x, y)])
+            nested_ok = isinstance(kids, list) and ((len(kids) == 1 and kids[0] is y) if inner else kids == [])
+            want = ('offer y to x as child (taken iff x parses its content), continue with x', buf == [] and ret is x and nested_ok)
         else:
             winner = x if px >= py else y
-            want = ('keep %s' % ('x' if winner is x else 'y'), buf == [] and ret is winner and not nested)
+            want = ('keep %s' % ('x' if winner is x else 'y'), buf == [] and ret is winner and untouched)
+        nested = not untouched
         rep.obligation('R-EVAL', want[1], {'function': 'eval_tokens', 'relation': NAMES[r],
                                           'precedence': 'x%sy' % ('<' if px < py else '=' if px == py else '>'),
                                           'expected': want[0]})
@@ -170,20 +175,21 @@ def rule_eval(ctx, rep):
         parent = mk_token(model, base, 'x', 1, True)
         L, c = mk_token(model, base, 'x', px, inner), mk_token(model, base, 'y', py, True)
         parent.attrs['children'] = [L]
+        L.attrs['children'] = []
         it = Interp(model)
         it.reset_run(Oracle())
-        nested2 = []
         it.func_hooks[rel.qualname] = lambda interp, fi, args, kwargs, r=r: r
-        it.func_hooks[ac.qualname] = lambda interp, fi, args, kwargs: nested2.append((args[0], args[1])) or None
         it.call(ec, [parent, c], {})
         ch = parent.attrs['children']
+        lk = L.attrs.get('children')
         if r == PRECEDE:
-            ok2, exp = (len(ch) == 2 and ch[0] is L and ch[1] is c and not nested2), 'append child after last'
+            ok2, exp = (len(ch) == 2 and ch[0] is L and ch[1] is c and lk == []), 'append child after last'
         elif r == CONTAIN:
-            ok2, exp = (len(ch) == 1 and ch[0] is L and nested2 == [(L, c)]), 'offer child to last child'
+            taken = isinstance(lk, list) and ((len(lk) == 1 and lk[0] is c) if inner else lk == [])
+            ok2, exp = (len(ch) == 1 and ch[0] is L and taken), 'offer child to last child (taken iff it parses its content)'
         else:
             winner = L if px >= py else c
-            ok2, exp = (len(ch) == 1 and ch[0] is winner and not nested2), 'keep %s' % ('last' if winner is L else 'new')
+            ok2, exp = (len(ch) == 1 and ch[0] is winner and lk == []), 'keep %s' % ('last' if winner is L else 'new')
         rep.obligation('R-EVAL', ok2, {'function': 'eval_new_child', 'relation': NAMES[r],
                                       'precedence': 'last%snew' % ('<' if px < py else '=' if px == py else '>'),
                                       'expected': exp})
